@@ -121,6 +121,39 @@ class Prop(BaseProp):
                 if idx % 60 == 0:
                     res.sample = {"argv": c.argv, "patterns": c.patterns, "sources": c.sources,
                                   "tree_files": sorted(c.tree.files)[:12], "expected": sorted(c.want)[:12]}
+                if idx % 6 == 2 and c.fr.outcome.ok and not getattr(c, "linked_input", False) and not c.tree.dirlinks:
+                    # the public API used directly, twice in this process with ONE Settings object (the second time a deep copy
+                    # of it) whose pattern list was replaced in between: each run honours the patterns it was given
+                    import copy
+                    from ..treegen import reference_walk, expected_outputs
+                    m = runner.cminx()
+                    names = sorted({os.path.basename(f) for f in c.tree.files if f.lower().endswith(".cmake")})
+                    pats_a = list(c.patterns)
+                    pats_b = [rng.choice(names)] if names and rng.random() < 0.7 else []
+                    st = runner.make_settings(input={"recursive": c.recursive, "exclude_filters": pats_a,
+                                                     "auto_exclude_directories_without_cmake": c.auto},
+                                              output={"directory": os.path.join(sb, "api_out_a")})
+                    oa = runner.guarded(m.document, c.inp, st)
+                    st2 = copy.deepcopy(st) if rng.random() < 0.5 else st
+                    st2.input.exclude_filters = pats_b
+                    st2.output.directory = os.path.join(sb, "api_out_b")
+                    ob = runner.guarded(m.document, c.inp, st2)
+                    runner.reset_logging()
+                    res.count("api_runs_with_a_reused_settings_object", 2)
+                    for o_, pats_, od_ in ((oa, pats_a, "api_out_a"), (ob, pats_b, "api_out_b")):
+                        spec_ = gitmatch.Spec(pats_)
+                        sp_keep = not (c.auto and not any(f.endswith(".cmake") and not spec_.excluded(os.path.join(c.inp, f), False)
+                                                          for f in c.tree.files_of("")))
+                        if not o_.ok or not sp_keep:
+                            continue          # (outside the carve-out, or the run failed for a reason assessed above)
+                        want_ = expected_outputs(reference_walk(c.tree, c.inp, c.recursive, c.auto, spec_))
+                        if spec_.excluded(c.inp, True):
+                            want_ = set()
+                        got_ = fsrun.files_under(os.path.join(sb, od_)) if os.path.isdir(os.path.join(sb, od_)) else set()
+                        if got_ != want_:
+                            res.violate("api-run-with-reused-settings-ignores-its-patterns",
+                                        f"patterns {pats_}: missing {sorted(want_ - got_)[:4]}, unexpected {sorted(got_ - want_)[:4]}",
+                                        {"patterns_first_run": pats_a, "patterns_second_run": pats_b, "tree_files": sorted(c.tree.files)[:20]})
             return res
         # exhaustive permutations of a flat directory's listing
         c0 = fscase.build_case(rng, flat=True)
